@@ -75,3 +75,24 @@ Proof. intros G Cur plan WF AC NOK E x Hx.
   - right. apply (proj2 (ancs_spec G WF Cur)). exact Hin.
   - left. apply Hmem. split; auto. intros A. apply Hnin. apply (proj2 (ancs_spec G WF Cur)). exact A. Qed.
 Print Assumptions C01_upgrade_heads_applies_all.
+
+(* ---------- the whole command, end to end (Model.Command): the target exactly as typed is resolved (Model.Resolve, C16),
+   planned (Model.Plan) and run step by step against the version table (Model.Heads, C03).  For every history, version
+   table, and target string: whatever the resolution stage hands to the planner, the scripts that run are exactly the
+   C01 plan in its order, and the table afterwards is exactly the heads of what is applied; a refused command
+   runs nothing and leaves the table as it was. ---------- *)
+From AV Require Import Spec.Command Proofs.CommandProof.
+Theorem C01_whole_command_model : forall i, Cmd_holds i (run_command i).
+Proof. exact CommandProof.model_holds. Qed.
+Print Assumptions C01_whole_command_model.
+
+Theorem C01_whole_command_decider_sound : forall i o, check_cmd i o = true -> Cmd_holds i o.
+Proof. exact CommandProof.decider_sound. Qed.
+Print Assumptions C01_whole_command_decider_sound.
+
+Definition ex_cmd : cmd_in :=
+  mkCmd [R.mkS [97;49;98;50;99]%N [] [] []; R.mkS [98;50;99;51;100]%N [[97;49;98;50;99]%N] [] [[108;97;98;48]%N]; R.mkS [99;51;100;52;101]%N [[97;49;98;50;99]%N] [] []; R.mkS [100;52;101;53;102]%N [[98;50;99;51;100]%N; [99;51;100;52;101]%N] [] []; R.mkS [101;53;102;54;97]%N [] [[98;50;99;51;100]%N] []]
+        [([98;50;99;51;100]%N, [100;52;101;53;102]%N)] [] [[99;51;100;52;101]%N] true [104;101;97;100;115]%N.
+Example C01_whole_command_nonvacuous : cmd_pre ex_cmd = true /\ run_command ex_cmd = COk [[98;50;99;51;100]%N; [101;53;102;54;97]%N; [100;52;101;53;102]%N] [[100;52;101;53;102]%N; [101;53;102;54;97]%N]
+  /\ check_cmd ex_cmd (run_command ex_cmd) = true.
+Proof. vm_compute. auto. Qed.
